@@ -9,6 +9,7 @@ mod alloc;
 mod c05;
 mod c05t;
 mod c11;
+mod c14;
 mod cborref;
 mod faults;
 mod gen;
@@ -17,6 +18,7 @@ mod minimize;
 mod report;
 mod rng;
 mod triage;
+mod zygote;
 
 use kernel::*;
 use std::time::Instant;
@@ -36,6 +38,7 @@ fn check_by_name(name: &str) -> Option<&'static dyn Check> {
     "c11x" => Some(&c11::C11X_CHECK),
     "c05" => Some(&c05::C05_CHECK),
     "c05g" => Some(&c05::C05G_CHECK),
+    "c14" => Some(&c14::C14_CHECK),
     _ => None,
   }
 }
@@ -88,6 +91,7 @@ fn main() {
       let code = match args[2].as_str() {
         "c11" => run_c11(seed, tier),
         "c05" => run_c05(seed, tier),
+        "c14" => run_c14(seed, tier),
         _ => usage(),
       };
       std::process::exit(code);
@@ -472,6 +476,71 @@ fn run_c05(seed: u64, tier: Tier) -> i32 {
     extra: Default::default(),
   };
   report::finish(&rep, &agg, findings, t0.elapsed().as_secs_f64(), None, &|p, v| c05t::predicate(p, v))
+}
+
+// ------------------------------------------------------------------------------------------------
+// C14 (engine A: native history simulator)
+
+fn run_c14(seed: u64, tier: Tier) -> i32 {
+  let t0 = Instant::now();
+  let workers = workers_from_env();
+  let total = runs_from_env(match tier {
+    Tier::Quick => 4_000,
+    Tier::Thorough => 2_000_000,
+  });
+  let plan = Plan {
+    check: "c14",
+    seed,
+    tier,
+    total,
+    batch: 100,
+    workers,
+    deadline: if tier == Tier::Thorough { thorough_deadline(900) } else { None },
+    keep_fps: false,
+    sample_below: 4,
+  };
+  let mut agg = run_plan(&plan);
+  eprintln!("phase search: {:.1}s ({} deaths, {} violations)", t0.elapsed().as_secs_f64(), agg.deaths.len(), agg.violations.len());
+  // a child that dies here died of something C05 is about (stack, allocation, hang); it is counted, not judged
+  let n_deaths = agg.deaths.len() as u64;
+  agg.probe("deaths_left_to_C05", n_deaths);
+  // group by (class, signature); minimise the representative of each group
+  let groups = triage::group(&agg.violations);
+  let minimised: std::sync::Mutex<Vec<(u64, Violation)>> = std::sync::Mutex::new(Vec::new());
+  let next = std::sync::atomic::AtomicUsize::new(0);
+  std::thread::scope(|sc| {
+    for _ in 0..workers.min(groups.len().max(1)) {
+      sc.spawn(|| loop {
+        let i = next.fetch_add(1, std::sync::atomic::Ordering::SeqCst);
+        if i >= groups.len() || i >= 40 {
+          break;
+        }
+        let (run, v, _) = &groups[i];
+        let m = if v.class == "harness" { v.clone() } else { c14::minimise(v, 60) };
+        minimised.lock().unwrap().push((*run, m));
+      });
+    }
+  });
+  let mut minimised = minimised.into_inner().unwrap();
+  minimised.sort_by_key(|x| x.0);
+  let findings: Vec<report::Finding> = minimised.into_iter().map(|(run, violation)| report::Finding { run, violation }).collect();
+  let rep = report::Report {
+    property: "C14",
+    check: "c14",
+    seed,
+    tier,
+    level: "exploration",
+    rule: "one evaluation = one history: a pool of related calls (schemas that reuse rule names with different definitions; one literal under .regexp/.pcre/.iregexp; one schema under every feature list; malformed schema / malformed document / non-conforming document for one base schema; fixtures; one AST shared by reference) issued 4-24 times by 1-4 simulated clients (real threads released one at a time by a seeded baton scheduler at API-call boundaries); every response is compared with the same call made alone in a fresh process and checked for non-empty error lists, the reserved error kinds and resolvable JSON locations. non-trivial = at least 3 calls and 2 different response kinds; distinct = distinct FNV digests of (pool, schedule, responses)".into(),
+    assumptions: vec![
+      "the sequential reference of a stateless API is the same call made alone: computed in a grandchild of a pristine copy of the process forked before any library code ran".into(),
+      "interleavings here are at call granularity (the baton); instruction-level interleavings of unmodified code are engine B (Miri)".into(),
+      "error-kind oracle: cddl_from_str for the schema, serde_json / the RFC 8949 reference model for the document; CSV has no malformed documents (flexible reader)".into(),
+    ],
+    real_components: vec!["cddl library of the /repo working tree: validate_json_from_str, validate_cbor_from_slice, validate_csv_from_str, JSONValidator / CBORValidator on a shared AST, cddl_from_str + Display".into(), "all dependencies as locked by /repo/Cargo.lock; real OS threads, real thread-locals and hash keys".into()],
+    stub_components: vec!["the scheduler between clients (baton) is the simulator's".into()],
+    extra: Default::default(),
+  };
+  report::finish(&rep, &agg, findings, t0.elapsed().as_secs_f64(), None, &|_, _| true)
 }
 
 // ------------------------------------------------------------------------------------------------
